@@ -66,6 +66,7 @@ type fctx struct {
 	ovfCount          int
 	ifaceFactsPending bool
 	capturedEntry     map[string]*Value // closure units: entry values of captured locals (visible in old())
+	rebind            map[string]*types.Var // contract name of a renamed local -> current variable (lock.go)
 	lastPos           string            // source position of the statement being executed (for messages only)
 }
 
